@@ -1,7 +1,7 @@
 (* C02 — union and intersection of explicit tree automata have exact language semantics; the reported maps
    name the states of the result. Statements only. *)
 From Coq Require Import List NArith Bool.
-From V Require Import Sem Prod Incl TrimDefs Lang ProductDefs ProductProofs BinopDefs BinopProofs.
+From V Require Import Sem Prod Incl TrimDefs Lang ProductDefs ProductProofs BinopDefs BinopProofs SharedTable.
 
 (* Union as the code builds it (both operands re-indexed into one automaton) accepts exactly the union,
    for every pair of reported maps that are injective on the operands' states with disjoint ranges *)
@@ -31,6 +31,21 @@ Proof. exact names_union_spec. Qed.
 Theorem C02_gate_names_isect : forall pm A B R, names_isect pm A B R = true <-> names_isect_prop pm A B R.
 Proof. exact names_isect_spec. Qed.
 
+(* operands over one shared transition table: union of the final states is the union of the languages; intersecting the final states
+   is only a lower bound of the intersection; appending tables without renaming needs disjoint STATE sets, not just disjoint owners *)
+Theorem C02_shared_union_exact : forall A F G t,
+  accepts (with_finals (F ++ G) A) t <-> accepts (with_finals F A) t \/ accepts (with_finals G A) t.
+Proof. exact shared_union_finals_exact. Qed.
+Theorem C02_shared_isect_sound : forall A F G t,
+  accepts (with_finals (finter F G) A) t -> accepts (with_finals F A) t /\ accepts (with_finals G A) t.
+Proof. exact shared_isect_finals_sound. Qed.
+Theorem C02_shared_isect_refuted : exists A F G t,
+  accepts (with_finals F A) t /\ accepts (with_finals G A) t /\ ~ accepts (with_finals (finter F G) A) t.
+Proof. exact shared_isect_finals_refuted. Qed.
+Theorem C02_owners_disjoint_not_enough : disjoint (owners uA) (owners uB) /\
+  exists t, accepts (ta_app uA uB) t /\ ~ accepts uA t /\ ~ accepts uB t.
+Proof. exact owners_disjoint_not_enough. Qed.
+
 Print Assumptions C02_union_lang.
 Print Assumptions C02_union_disjoint_lang.
 Print Assumptions C02_isect_td_lang.
@@ -40,3 +55,7 @@ Print Assumptions C02_gate_union.
 Print Assumptions C02_gate_isect.
 Print Assumptions C02_gate_names_union.
 Print Assumptions C02_gate_names_isect.
+Print Assumptions C02_shared_union_exact.
+Print Assumptions C02_shared_isect_sound.
+Print Assumptions C02_shared_isect_refuted.
+Print Assumptions C02_owners_disjoint_not_enough.
